@@ -154,7 +154,7 @@ class Twin:
                 raise Skip()
             self.texec(t, i)
             cm[rec["out"]] = [0]
-        elif op in ("get_density", "marginal", "condition_on"):
+        elif op in ("get_density", "marginal", "condition_on", "copy"):
             self.texec(t, i)
             cm[rec["out"]] = list(cm[a])
         elif op == "normalize":
